@@ -100,6 +100,17 @@ def run_case(case):
                         for f in traffic(st[1] % 6, st[2] % 4, step_no):
                             s.send(F.line(f))
                     time.sleep(0.1)
+                elif k == "crowd":
+                    # many aircraft at once (more than any table or map cell holds), all positioned
+                    if s.srv.conn is not None:
+                        n = [40, 150, 400][st[1] % 3]
+                        buf = b""
+                        for i in range(n):
+                            a = 0x500000 + i * 0x101
+                            lat, lon = F.destination(RX[0], RX[1], (i * 7.3) % 360.0, 3.0 + (i * 1.9) % 240.0)
+                            buf += F.line(F.ident(a, f"C{i:04d}")) + F.line(F.position(a, lat, lon, 0, alt_ft=1000 + 25 * i)) + F.line(F.position(a, lat, lon, 1, alt_ft=1000 + 25 * i))
+                        s.send(buf)
+                    time.sleep(0.4)
                 elif k == "feed_tab":
                     if s.srv.conn is not None:
                         for f in traffic(st[1] % 6, st[2] % 4, step_no):
@@ -248,6 +259,11 @@ def burst_cases():
         out.append(dict(base, expiry=True, steps=[["feed", 3, 1], ["feed", 3, 1], ["key", tab], ["wait_expiry"], ["wait_expiry"]] + [["key", t] for t in (3, 2, 0, 1, 4, 3)] + [["feed", 2, 1], ["key", 3], ["wait_expiry"], ["wait_expiry"], ["key", 2], ["key", 3]]))
     for i in range(3, len(RXS)):
         out.append(dict(base, rx=i, steps=[["feed", 3, 1], ["feed_tab", 3, 1, 3], ["feed_tab", 2, 1, 0], ["key", 2], ["key", 7], ["key", 10]]))
+    # a crowd: 400 positioned aircraft, every tab, selection keys far down the table, zoom, a small
+    # terminal, and all of them expiring at once
+    walk = [["key", 2]] + [["paste", [7] * 6]] * 8 + [["key", 10], ["key", 0], ["key", 11], ["key", 12], ["key", 1], ["key", 3], ["key", 4], ["resize", 3, 3], ["key", 2], ["key", 7], ["resize", 7, 7]]
+    out.append(dict(base, steps=[["crowd", 2]] + walk + [["crowd", 2]] + walk))
+    out.append(dict(base, expiry=True, flags=[0], steps=[["crowd", 1], ["key", 2], ["paste", [7] * 6], ["wait_expiry"], ["wait_expiry"], ["key", 7], ["key", 10], ["key", 3], ["key", 0], ["crowd", 0], ["key", 2], ["key", 6]]))
     return out
 
 
@@ -273,6 +289,7 @@ def worker(args):
         st.tuples(st.just("wait_expiry")),
         st.tuples(st.just("feed_tab"), st.integers(2, 5), st.integers(0, 3), st.integers(0, 4)),
         st.tuples(st.just("server_drop"), st.integers(0, 1)),
+        st.tuples(st.just("crowd"), st.integers(0, 2)),
         # several aircraft in one coverage cell, then each tab in turn
         st.sampled_from([("feed_tab", 3, 2, 1), ("feed_tab", 2, 2, 0), ("feed_tab", 4, 2, 2), ("feed_tab", 2, 1, 1), ("feed_tab", 5, 2, 3), ("feed_tab", 3, 3, 3), ("feed_tab", 2, 3, 3), ("feed_tab", 4, 3, 0)]),
     )
